@@ -182,7 +182,9 @@ pub fn run_case(c: &Case) -> (Res, u64) {
         Outcome::Budget { hot, .. } => {
             // a rule with an ellipsis or an optional in it may be backtracking rather than looping: one more try with
             // BIG x the budget; returning then = superlinear (a violation of the proportional bound, but not a hang)
-            let backtracking = c.groups.iter().flatten().any(|r| r.contains("..") || r.contains('…') || r.contains('('));
+            // (only when the ellipsis / optional matching loops - tick sites 40..=47 - are among the hot sites: a runaway
+            //  insertion grows the word on every pass, and 64x its budget would take quadratic time)
+            let backtracking = c.groups.iter().flatten().any(|r| r.contains("..") || r.contains('…') || r.contains('(')) && hot.iter().any(|(s, _)| (40..=47).contains(s));
             if backtracking {
                 match exec(c, b.saturating_mul(BIG)) {
                     Outcome::Budget { hot, .. } => (Res::Hang(hot_sig(&hot)), b * BIG),
